@@ -54,7 +54,7 @@ const VOCAB: &[&str] = &[
     "from", "select", "derive", "filter", "sort", "take", "join", "group", "aggregate", "window", "append", "let",
     "into", "case", "func", "module", "this", "that", "std", "sum", "count", "min", "rank", "lag", "in", "as", "side:left",
     "rows:-1..1", "range:..0", "rolling:2", "expanding:true", "1", "0", "-1", "2.5", "null", "true", "\"a\"", "f\"{a}\"",
-    "s\"{a}\"", "@2020-01-01", "3days", "1..2", "..", "{", "}", "(", ")", "[", "]", ",", "|", "=", "==", "!=", "->", "=>",
+    "s\"{a}\"", "f\"\"", "f\"{a}\"", "(f\"\" ?? \"x\")", "@2020-01-01", "3days", "1..2", "..", "{", "}", "(", ")", "[", "]", ",", "|", "=", "==", "!=", "->", "=>",
     "+", "-", "*", "/", "//", "%", "**", "??", "&&", "||", "!", "~=", ".", ":", "t1", "id", "a", "`x y`", "$1", "é",
     "7 // 0", "3 % 0", "1 / 0", "0 ** -1", "9223372036854775807 + 1", "-9223372036854775808", "1e308 * 10", "0x7fffffffffffffff",
     "1e999", "0.0 / 0", "take 0", "take -1", "take 1..0", "take 9223372036854775807", "rows:5..1", "rolling:0", "rolling:-1",
